@@ -3,6 +3,7 @@ package http
 import (
 	"bytes"
 	"encoding/json"
+	"errors"
 	"fmt"
 	"net/http"
 	"strconv"
@@ -114,6 +115,11 @@ func (w *HttpWorker) Process(data []byte, body []byte) (bool, error) {
 	var httpData *Data
 	if err := json.Unmarshal(data, &httpData); err != nil {
 		return false, err
+	}
+
+	// the json value null unmarshals without error
+	if httpData == nil {
+		return false, errors.New("data must not be null")
 	}
 
 	req, err := http.NewRequest("POST", httpData.Url, bytes.NewReader(body))
